@@ -2,12 +2,12 @@
 (mitmproxy/proxy/server.py: ConnectionHandler)."""
 import collections.abc
 
-from lib.coqterm import cbool, clist
+from lib.coqterm import cbytes
 
 ID = "C09"
 QUICK_N = 1500
 THOROUGH_N = 30000
-SHARD = 125
+SHARD = 250
 COQ_PRELUDE = ""
 RULE = ("a case is a layer script (the commands the top layer answers to its n-th event: OpenConnection to one of 3 addresses "
         "or to no address, CloseConnection, half-close, SendData, StartHook, Log) plus <=30 action intents (complete a pending "
@@ -437,8 +437,8 @@ def run_impl(case):
 
 
 # ------------------------------------------------------------------ Coq terms
-# A case is shipped as one string literal decoded by Corr/C09.v (decode): numbers < 63 are chr(40+n),
-# larger ones a single quote followed by two such characters; 63 = END.
+# A case is shipped as one byte list decoded by Corr/C09.v (decode)
+# (see Corr/C09.v for the format); 63 = END.
 END = 63
 _RR = {"data": 0, "eof": 1, "err": 2}
 
@@ -475,14 +475,14 @@ def _ev(e):
 
 
 def _enc(nums):
-    out = []
+    out = bytearray()
     for n in nums:
-        assert 0 <= n < 4096
-        if n < 63:
-            out.append(chr(40 + n))
+        assert 0 <= n < 65536
+        if n < 255:
+            out.append(n)
         else:
-            out.append("'" + chr(40 + n // 64) + chr(40 + n % 64))
-    return "".join(out)
+            out += bytes([255, n // 256, n % 256])
+    return bytes(out)
 
 
 def coq_case(case, obs):
@@ -526,9 +526,7 @@ def coq_case(case, obs):
                 trace += t
     toks.append(END)
     toks += trace + [END, int(obs["main_done"])]
-    s = _enc(toks)
-    assert '"' not in s
-    return f'"{s}"%string'
+    return cbytes(_enc(toks))
 
 
 # ------------------------------------------------------------------ oracle: the property on the real trace
